@@ -59,6 +59,11 @@ struct DescT
     std::vector<Cell> cells;
     std::vector<FieldT<Obj>> fields;
     std::vector<GroupT<Obj>> groups;
+    // payload classes with a data setter: setData(bytes) replaces the data behind the header; the cells listed in dataEffects
+    // take the value the function returns for the new length (false: no value is prescribed - the model re-reads the getter)
+    std::function<void(Obj&, const Bytes&)> dataSetter;
+    std::vector<std::pair<int, std::function<bool(size_t, uint64_t&)>>> dataEffects;
+    size_t maxData{0};
     // Packet only: replaces the payload by one derived from `value` and returns what `data` must read afterwards
     std::function<Bytes(Obj&, uint64_t value)> payloadSetter;
     std::function<Obj(const Bytes& image)> fromImage;  // object whose raw header bytes are `image` (+ optional data)
@@ -389,6 +394,20 @@ inline DescT<lib::CanPayload> descCanPayload()
     VF_FIELD("errorPosition", 3, 0, 16, o.setErrorPosition(static_cast<uint16_t>(v)), o.getErrorPosition());
     d.fields.push_back({"dlc(read-only)", 4, 0, 8, nullptr, [](const Obj& o) -> uint64_t { return o.getDlc(); }, {}});
     d.fields.push_back({"dataLength(read-only)", 5, 0, 8, nullptr, [](const Obj& o) -> uint64_t { return o.getDataLength(); }, {}});
+    d.dataSetter = [](Obj& o, const Bytes& b) {
+        static const uint8_t dummy = 0;
+        o.setData(b.empty() ? &dummy : b.data(), static_cast<uint8_t>(b.size()));
+    };
+    d.maxData = 64;
+    d.dataEffects.push_back({4, [](size_t n, uint64_t& v) {
+                                 bool defined = false;
+                                 v = wire::canDlcFor(static_cast<uint8_t>(n), defined);
+                                 return defined;
+                             }});
+    d.dataEffects.push_back({5, [](size_t n, uint64_t& v) {
+                                 v = n;
+                                 return true;
+                             }});
     d.fromImage = [](const Bytes& image) { return Obj(image.data(), image.size()); };
     d.image = [](const Obj& o) { return payloadImage(o, 16); };
     d.data = [](const Obj& o) { return payloadData(o, 16); };
@@ -424,6 +443,20 @@ inline DescT<lib::CanFdPayload> descCanFdPayload()
     VF_FIELD("errorPosition", 3, 0, 16, o.setErrorPosition(static_cast<uint16_t>(v)), o.getErrorPosition());
     d.fields.push_back({"dlc(read-only)", 4, 0, 8, nullptr, [](const Obj& o) -> uint64_t { return o.getDlc(); }, {}});
     d.fields.push_back({"dataLength(read-only)", 5, 0, 8, nullptr, [](const Obj& o) -> uint64_t { return o.getDataLength(); }, {}});
+    d.dataSetter = [](Obj& o, const Bytes& b) {
+        static const uint8_t dummy = 0;
+        o.setData(b.empty() ? &dummy : b.data(), static_cast<uint8_t>(b.size()));
+    };
+    d.maxData = 64;
+    d.dataEffects.push_back({4, [](size_t n, uint64_t& v) {
+                                 bool defined = false;
+                                 v = wire::canDlcFor(static_cast<uint8_t>(n), defined);
+                                 return defined;
+                             }});
+    d.dataEffects.push_back({5, [](size_t n, uint64_t& v) {
+                                 v = n;
+                                 return true;
+                             }});
     d.fromImage = [](const Bytes& image) { return Obj(image.data(), image.size()); };
     d.image = [](const Obj& o) { return payloadImage(o, 16); };
     d.data = [](const Obj& o) { return payloadData(o, 16); };
@@ -456,6 +489,15 @@ inline DescT<lib::LinPayload> descLinPayload()
     VF_FIELD("parityBits", 1, 6, 2, o.setParityBits(static_cast<uint8_t>(v)), o.getParityBits());
     VF_FIELD("checksum", 2, 0, 8, o.setChecksum(static_cast<uint8_t>(v)), o.getChecksum());
     d.fields.push_back({"dataLength(read-only)", 3, 0, 8, nullptr, [](const Obj& o) -> uint64_t { return o.getDataLength(); }, {}});
+    d.dataSetter = [](Obj& o, const Bytes& b) {
+        static const uint8_t dummy = 0;
+        o.setData(b.empty() ? &dummy : b.data(), static_cast<uint8_t>(b.size()));
+    };
+    d.maxData = 40;
+    d.dataEffects.push_back({3, [](size_t n, uint64_t& v) {
+                                 v = n;
+                                 return true;
+                             }});
     d.fromImage = [](const Bytes& image) { return Obj(image.data(), image.size()); };
     d.image = [](const Obj& o) { return payloadImage(o, 8); };
     d.data = [](const Obj& o) { return payloadData(o, 8); };
@@ -485,6 +527,15 @@ inline DescT<lib::EthernetPayload> descEthernetPayload()
                             [m](const Obj& o) -> uint64_t { return o.getFlag(static_cast<lib::EthernetPayload::Flags>(m)); }, {}});
     }
     d.fields.push_back({"dataLength(read-only)", 1, 0, 16, nullptr, [](const Obj& o) -> uint64_t { return o.getDataLength(); }, {}});
+    d.dataSetter = [](Obj& o, const Bytes& b) {
+        static const uint8_t dummy = 0;
+        o.setData(b.empty() ? &dummy : b.data(), static_cast<uint16_t>(b.size()));
+    };
+    d.maxData = 80;
+    d.dataEffects.push_back({1, [](size_t n, uint64_t& v) {
+                                 v = n;
+                                 return true;
+                             }});
     d.fromImage = [](const Bytes& image) { return Obj(image.data(), image.size()); };
     d.image = [](const Obj& o) { return payloadImage(o, 6); };
     d.data = [](const Obj& o) { return payloadData(o, 6); };
